@@ -35,11 +35,13 @@ PROPS = {
                       "the implementation on generated inputs on every run.",
         "level_note": "Theorems are about the model at α := ℝ; the tie to /repo is the sampled "
                       "correspondence (bit-exact on Float). Trusted: Lean kernel, Mathlib, harness.",
-        "lean_modules": ["Astral.Props.C15"],
+        "lean_modules": ["Astral.Props.C15", "Astral.Props.C15Inv"],
         "theorems": [
             "Astral.C15.jd_gregorian", "Astral.C15.meeusInt_eq_ord", "Astral.C15.jd_time",
             "Astral.C15.jd_julian_offset", "Astral.C15.century_inverse",
             "Astral.C15.century_inverse'", "Astral.C15.mjd_eq",
+            "Astral.C15Inv.inverse_core", "Astral.C15Inv.time_split", "Astral.C15Inv.jd_roundtrip",
+            "Astral.C15Inv.jd_roundtrip_from_1582",
         ],
         "groups": [G("corr_julian", "julian", 6000, 300000)],
         "unproved": [],
@@ -189,11 +191,12 @@ PROPS = {
                       "with an independent ephemeris (0.04°…) is not a theorem (DESIGN §9).",
         "level_note": "Fixed-point residual of the two-pass scheme and the D11 wrap tier are not bounded "
                       "by a theorem. Oracle search (stage C only): Astronomical-Almanac formulae.",
-        "lean_modules": ["Astral.Props.C01"],
+        "lean_modules": ["Astral.Props.C01", "Astral.Props.C05Real"],
         "theorems": [
             "Astral.C01.hourAngle_sound", "Astral.C01.cosZenith_of_degrees",
             "Astral.C01.zenith_at_hourAngle", "Astral.C01.target_zenith", "Astral.C01.upper_limb",
             "Astral.C01.fold_elevation", "Astral.C01.direction_sign",
+            "Astral.C05Real.transit_hourangle_consistent",
         ],
         "groups": [G("corr_sun", "hour_angle", 2500, 60000), G("corr_sun", "transit", 3000, 80000),
                    G("corr_sun", "sun_events", 3000, 80000), G("corr_sun", "sun_chain", 1400, 30000),
@@ -254,11 +257,13 @@ PROPS = {
                       "independent ephemeris is not a theorem.",
         "level_note": "midnight_nearest assumes consecutive solar midnights are 24 h ± ε apart and the "
                       "UTC candidate within 36 h of the zone's 00:00.",
-        "lean_modules": ["Astral.Props.C05"],
+        "lean_modules": ["Astral.Props.C05", "Astral.Props.C05Real"],
         "theorems": [
             "Astral.C05.carrySM_spec", "Astral.C05.carrySM_minute_range", "Astral.C05.mkNoon_spec",
             "Astral.C05.mkMidnight_spec", "Astral.C05.noon_on_date", "Astral.C05.noon_on_date_of_aligned",
-            "Astral.C05.midnight_nearest",
+            "Astral.C05.midnight_nearest", "Astral.C05Real.noon_is_transit",
+            "Astral.C05Real.midnight_is_antitransit", "Astral.C05Real.noon_formula",
+            "Astral.C05Real.noon_is_highest",
         ],
         "groups": [G("corr_sun", "sun_events", 4500, 100000), G("corr_sun", "sun_chain", 1400, 30000)],
         "unproved": ["hour angle within 0.25° of 0 / 180 by an independent ephemeris",
